@@ -152,6 +152,9 @@ fn run(ctx: &Ctx) {
     let n2 = ctx.tier.pick(6, 7);
     let count2 = gen::exh_count(gen::SIGMA2.len() as u64, n2);
     ctx.run_indexed("exh-bytes-alphabet2-x-rotated-configs", count2 * 2, |i| Some(Case { input: B(gen::exh_bytes(gen::SIGMA2, i / 2)), cfg: rotated_cfg(seed, i / 2, i % 2) }), check);
+    let n3 = ctx.tier.pick(5, 6);
+    let count3 = gen::exh_count(gen::SIGMA3.len() as u64, n3);
+    ctx.run_indexed("exh-bytes-alphabet3-x-rotated-configs", count3 * 4, |i| Some(Case { input: B(gen::exh_bytes(gen::SIGMA3, i / 4)), cfg: if i % 4 == 0 { TRIM_START | TRIM_END | TRIM_NAMES | ALLOW_UNMATCHED } else { rotated_cfg(seed, i / 4, i % 4) } }), check);
     let k = ctx.tier.pick(4, 5);
     // (quick: 29^4 sequences x 4 configurations; thorough: 29^5 x 2)
     let tcount = gen::exh_count(gen::TOKENS.len() as u64, k);
